@@ -695,6 +695,28 @@ def r14_12(prog: Program, rep):
            "a parent outside the graph is written as GRAPH_PARENT_MISSING = 'no parent': a graph for the ref targets only (write_commit_graph(reachable=False)) "
            "or across a shallow boundary shows commits with fewer parents than they have, and every ancestry walk that consults it stops there",
            (tests[0].lineno if tests else f.node.lineno))
+    # the closure is optional (keyword `closed`, default True): every caller in the package asks for it
+    defaults = {a.arg: d for a, d in zip(f.node.args.kwonlyargs, f.node.args.kw_defaults)}
+    pos = f.node.args.args[-len(f.node.args.defaults):] if f.node.args.defaults else []
+    defaults.update({a.arg: d for a, d in zip(pos, f.node.args.defaults)})
+    flag = next((k for k in defaults if k in ("closed", "close", "prune_open", "closed_under_parents")), None)
+    if flag is not None:
+        dflt = defaults[flag]
+        rep.ob("R14.12", m.rel, f.qual, f"the closure is on by default (`{flag}`)", isinstance(dflt, ast.Constant) and dflt.value is True,
+               "generate_commit_graph leaves open commits in the graph unless asked otherwise", f.node.lineno)
+        for m2 in prog.modules.values():
+            if not m2.rel.startswith("dulwich/") or m2.rel.startswith("dulwich/tests/"):
+                continue
+            for q, f2 in m2.funcs.items():
+                if "#" in q:
+                    continue
+                for c in ast.walk(f2.node):
+                    if isinstance(c, ast.Call) and callee_name(c) == "generate_commit_graph" and m2.enclosing_func(c) is f2:
+                        v = arg_of(c, None, flag)
+                        okc = v is None or (isinstance(v, ast.Constant) and v.value is True)
+                        rep.ob("R14.12", m2.rel, f2.qual, "the caller asks generate_commit_graph for a graph closed under parents", okc,
+                               f"`{flag}={norm(v) if v is not None else ''}`: for that request the written graph names commits whose parents are outside it; "
+                               "they read back with fewer parents than they have and ancestry walks that consult the graph stop there", c.lineno)
 
 
 def r14_14(prog: Program, rep):
